@@ -404,7 +404,7 @@ class Inliner:
         if fn is caller or not _is_private(fn.name):
             return False
         decs = _decorators(fn)
-        if any(d in ("njit", "jit", "staticmethod", "classmethod", "property") for d in decs):
+        if any(d in ("njit", "jit", "classmethod", "property") for d in decs):
             return False
         # no (direct) recursion
         for n in ast.walk(fn):
@@ -418,7 +418,15 @@ class Inliner:
         f = call.func
         if isinstance(f, ast.Attribute) and isinstance(f.value, ast.Name) and f.value.id == "self" and cls is not None:
             m = self.methods_of(cls.name).get(f.attr)
+            if m is not None and "staticmethod" in _decorators(m):
+                return (m, False, None)
             return (m, True, f.value) if m is not None else None
+        if isinstance(f, ast.Attribute) and isinstance(f.value, ast.Name) and f.value.id in self.classes:
+            # `Class._helper(...)`: a private static method is a plain function kept in the class's namespace
+            m = self.methods_of(f.value.id).get(f.attr)
+            if m is not None and "staticmethod" in _decorators(m):
+                return (m, False, None)
+            return None
         if isinstance(f, ast.Name) and f.id in self.funcs:
             return (self.funcs[f.id], False, None)
         return None
@@ -445,6 +453,10 @@ class Inliner:
                 t = s.test
                 neg = isinstance(t, ast.UnaryOp) and isinstance(t.op, ast.Not)
                 c = t.operand if neg else t
+                cmp_ = None
+                if isinstance(c, ast.Compare) and isinstance(c.left, ast.Call) and all(isinstance(x, ast.Constant) for x in c.comparators):
+                    # `if helper(a) is not None:` / `if helper(a) == 0:`: the call is the first thing the test evaluates
+                    cmp_, c = c, c.left
                 if isinstance(c, ast.Call) and self.resolve(c, cls) is not None:
                     fn_, is_m, self_e = self.resolve(c, cls)
                     simple = lambda a: isinstance(a, (ast.Name, ast.Constant)) or (isinstance(a, ast.Attribute) and simple(a.value))
@@ -455,6 +467,9 @@ class Inliner:
                         rep = self.try_inline(pre, cls, caller)
                         if rep is not None:
                             nm = ast.copy_location(ast.Name(id=tmp, ctx=ast.Load()), c)
+                            if cmp_ is not None:
+                                cmp_.left = nm
+                                nm = cmp_
                             s.test = ast.copy_location(ast.UnaryOp(op=ast.Not(), operand=nm), t) if neg else nm
                             self.changed += 1
                             out.extend(rep)
@@ -678,10 +693,26 @@ def _split_simple_statements(stmts):
                 and isinstance(s.value, (ast.Tuple, ast.List)) and len(s.targets[0].elts) == len(s.value.elts) \
                 and all(isinstance(t, ast.Name) for t in s.targets[0].elts) and not any(isinstance(v, ast.Starred) for v in s.value.elts):
             tnames = {t.id for t in s.targets[0].elts}
-            rnames = {n.id for v in s.value.elts for n in ast.walk(v) if isinstance(n, ast.Name)}
-            if not (tnames & rnames) and len(tnames) == len(s.targets[0].elts):
-                for t, v in zip(s.targets[0].elts, s.value.elts):
-                    out.append(ast.copy_location(ast.Assign(targets=[t], value=v), s))
+            if len(tnames) == len(s.targets[0].elts):
+                # all right-hand sides are evaluated before any target is bound: assigning in order is the same thing as long as no
+                # right-hand side reads a target bound EARLIER in the list (`start, end = end, end + n` is fine); otherwise the
+                # values go through fresh temporaries first
+                tl = [t.id for t in s.targets[0].elts]
+                reads = [{n.id for n in ast.walk(v) if isinstance(n, ast.Name)} for v in s.value.elts]
+                in_order = all(not (set(tl[:j]) & reads[j]) for j in range(len(tl)))
+                if in_order:
+                    for t, v in zip(s.targets[0].elts, s.value.elts):
+                        out.append(ast.copy_location(ast.Assign(targets=[t], value=v), s))
+                else:
+                    tmps = []
+                    for t, v in zip(s.targets[0].elts, s.value.elts):
+                        tmp = "swap__%s%d" % (t.id, next(_counter))
+                        tmps.append(tmp)
+                        out.append(ast.copy_location(ast.Assign(targets=[ast.Name(id=tmp, ctx=ast.Store())], value=v), s))
+                    for t, tmp in zip(s.targets[0].elts, tmps):
+                        out.append(ast.copy_location(ast.Assign(targets=[t], value=ast.Name(id=tmp, ctx=ast.Load())), s))
+                    for x in out[-2 * len(tmps):]:
+                        ast.fix_missing_locations(x)
                 continue
         for fld in ("body", "orelse", "finalbody"):
             if hasattr(s, fld) and isinstance(getattr(s, fld), list):
@@ -746,7 +777,11 @@ def _propagate_copies(fn):
     from .model import single_assignments
     sa = single_assignments(fn, allow_subscript=False, in_loops=True)
     if not sa:
-        return 0
+        try:
+            if not any(isinstance(v_, ast.Name) for v_ in single_assignments(fn, allow_subscript=False, in_loops=False, loose=True).values()):
+                return 0
+        except TypeError:
+            return 0
     stored = set()
     stored_attrs = {}        # attr -> line of the last store, or "loop" when a store sits inside a loop
     dyn = False
@@ -1540,12 +1575,174 @@ class _FoldDisplays(ast.NodeTransformer):
                 a.value = a.value.args[0]
         return c
 
+    def visit_Assign(self, a):
+        # `x, y, z = (f(i) for i in range(3))`: unpacking consumes the generator exactly like tuple(...) does
+        if len(a.targets) == 1 and isinstance(a.targets[0], (ast.Tuple, ast.List)) and isinstance(a.value, (ast.GeneratorExp, ast.ListComp)):
+            a.value = ast.copy_location(ast.Call(func=ast.Name(id="tuple", ctx=ast.Load()), args=[a.value], keywords=[]), a.value)
+        self.generic_visit(a)
+        return a
+
     def visit_BinOp(self, b):
         self.generic_visit(b)
         if isinstance(b.op, ast.Add) and isinstance(b.left, ast.Tuple) and isinstance(b.right, ast.Tuple) \
                 and not any(isinstance(e, ast.Starred) for e in b.left.elts + b.right.elts):
             return ast.copy_location(ast.Tuple(elts=list(b.left.elts) + list(b.right.elts), ctx=ast.Load()), b)
         return b
+
+
+_MODULE_DEFS = set()        # names the module being normalised binds exactly once by `def` / `class`
+
+
+def _drop_unreachable(stmts):
+    """Statements after an unconditional return / raise / continue / break of the same block never run (they appear when a constant
+    test was pruned or a continuation was copied into an arm that returns)."""
+    for i, s in enumerate(stmts):
+        for fld in ("body", "orelse", "finalbody"):
+            blk = getattr(s, fld, None)
+            if isinstance(blk, list) and not isinstance(s, (ast.FunctionDef, ast.AsyncFunctionDef, ast.ClassDef)):
+                _drop_unreachable(blk)
+        if isinstance(s, ast.Try):
+            for h in s.handlers:
+                _drop_unreachable(h.body)
+        if isinstance(s, (ast.Return, ast.Raise, ast.Continue, ast.Break)) and i + 1 < len(stmts):
+            del stmts[i + 1:]
+            return
+
+
+def _sink_into_selector_chain(fn):
+    """An if/elif/else chain every arm of which ends by binding one name to a *selector constant* (a class or function of the module,
+    or None), followed by the rest of the function that uses the name (`cls = ...; if cls is None: return None; return cls.load(f)`):
+    the rest is copied into every arm with the constant substituted, so that each arm reads as the direct call it performs.  Only at
+    the top level of a function, at most 6 arms and 8 following statements, the name (and one alias `x = name`) stored nowhere else."""
+    def selector(v):
+        return isinstance(v, ast.Constant) or (isinstance(v, ast.Name) and v.id in _MODULE_DEFS)
+
+    def arms_of(node):
+        out = []
+        while True:
+            out.append((node, "body"))
+            if len(node.orelse) == 1 and isinstance(node.orelse[0], ast.If):
+                node = node.orelse[0]
+                continue
+            if not node.orelse:
+                return None
+            out.append((node, "orelse"))
+            return out
+    body = fn.body
+    for i, s in enumerate(body):
+        if not isinstance(s, ast.If):
+            continue
+        arms = arms_of(s)
+        if arms is None or len(arms) > 6:
+            continue
+        name = None
+        ok = True
+        for node, fld in arms:
+            last = getattr(node, fld)[-1]
+            if not (isinstance(last, ast.Assign) and len(last.targets) == 1 and isinstance(last.targets[0], ast.Name) and selector(last.value)):
+                ok = False
+                break
+            if name is None:
+                name = last.targets[0].id
+            elif name != last.targets[0].id:
+                ok = False
+                break
+        cont = body[i + 1:]
+        if not ok or name is None or not cont or len(cont) > 8:
+            continue
+        names = {name}
+        if isinstance(cont[0], ast.Assign) and len(cont[0].targets) == 1 and isinstance(cont[0].targets[0], ast.Name) \
+                and isinstance(cont[0].value, ast.Name) and cont[0].value.id == name:
+            names.add(cont[0].targets[0].id)
+            cont = cont[1:]
+        stores = [x for st in body for x in ast.walk(st) if isinstance(x, ast.Name) and x.id in names and isinstance(x.ctx, (ast.Store, ast.Del))]
+        if len(stores) != len(arms) + (len(names) - 1) or not cont:
+            continue
+        if not any(isinstance(x, ast.Name) and x.id in names for st in cont for x in ast.walk(st)):
+            continue
+        if any(isinstance(x, (ast.FunctionDef, ast.Lambda, ast.ClassDef)) for st in cont for x in ast.walk(st)):
+            continue
+        for node, fld in arms:
+            blk = getattr(node, fld)
+            const = blk[-1].value
+            for st in cont:
+                c = copy.deepcopy(st)
+                for nm in names:
+                    c = _ConstSubst(nm, const).visit(c)
+                blk.append(c)
+        del body[i + 1:]
+        return 1
+    return 0
+
+
+class _SimplifySelectorTests(ast.NodeTransformer):
+    """`(A if c else B) is None` / `is not None` / `== k` with constant arms (what an inlined decision-tree helper leaves in a test):
+    the comparison is pushed into the arms, constant comparisons are folded, and `True if c else e` -> `c or e`,
+    `False if c else e` -> `not c and e`, `e if c else True` -> `not c or e`, `e if c else False` -> `c and e`."""
+
+    def fold(self, left, op, right):
+        if isinstance(left, ast.Constant) and isinstance(right, ast.Constant):
+            a, b = left.value, right.value
+            if isinstance(op, ast.Is):
+                return ast.Constant(value=(a is b) if (a is None or b is None) else (a == b and type(a) is type(b)))
+            if isinstance(op, ast.IsNot):
+                return ast.Constant(value=not ((a is b) if (a is None or b is None) else (a == b and type(a) is type(b))))
+            if isinstance(op, ast.Eq):
+                return ast.Constant(value=a == b)
+            if isinstance(op, ast.NotEq):
+                return ast.Constant(value=a != b)
+        return None
+
+    def push(self, e, op, right):
+        if isinstance(e, ast.IfExp):
+            return ast.IfExp(test=e.test, body=self.push(e.body, op, right), orelse=self.push(e.orelse, op, right))
+        f = self.fold(e, op, right)
+        return f if f is not None else ast.Compare(left=e, ops=[op], comparators=[right])
+
+    def boolify(self, e):
+        if not isinstance(e, ast.IfExp):
+            return e
+        b, o = self.boolify(e.body), self.boolify(e.orelse)
+        cb = b.value if isinstance(b, ast.Constant) and isinstance(b.value, bool) else None
+        co = o.value if isinstance(o, ast.Constant) and isinstance(o.value, bool) else None
+        neg = lambda x: ast.UnaryOp(op=ast.Not(), operand=x)
+        if cb is True and co is True:
+            return e          # (keeps the evaluation of the test)
+        if cb is True:
+            return e.test if co is False else ast.BoolOp(op=ast.Or(), values=[e.test, o])
+        if cb is False:
+            return neg(e.test) if co is True else ast.BoolOp(op=ast.And(), values=[neg(e.test), o])
+        if co is True:
+            return ast.BoolOp(op=ast.Or(), values=[neg(e.test), b])
+        if co is False:
+            return ast.BoolOp(op=ast.And(), values=[e.test, b])
+        return ast.IfExp(test=e.test, body=b, orelse=o)
+
+    def visit_Compare(self, c):
+        self.generic_visit(c)
+        if len(c.ops) == 1 and isinstance(c.left, ast.IfExp) and isinstance(c.comparators[0], ast.Constant) \
+                and isinstance(c.ops[0], (ast.Is, ast.IsNot, ast.Eq, ast.NotEq)):
+            def const_arms(e):
+                return const_arms(e.body) and const_arms(e.orelse) if isinstance(e, ast.IfExp) else isinstance(e, ast.Constant)
+            if const_arms(c.left):
+                r = self.boolify(self.push(c.left, c.ops[0], c.comparators[0]))
+                # flatten nested `a or (b or c)`
+                def flat(x):
+                    if isinstance(x, ast.BoolOp):
+                        vals = []
+                        for v in x.values:
+                            v = flat(v)
+                            if isinstance(v, ast.BoolOp) and type(v.op) is type(x.op):
+                                vals.extend(v.values)
+                            else:
+                                vals.append(v)
+                        x.values = vals
+                    return x
+                r = flat(r)
+                ast.copy_location(r, c)
+                ast.fix_missing_locations(r)
+                return r
+        return c
 
 
 class _PruneConstantIfs(ast.NodeTransformer):
@@ -1559,9 +1756,19 @@ class _PruneConstantIfs(ast.NodeTransformer):
                 and isinstance(t.ops[0], (ast.Is, ast.IsNot)) and (t.left.value is None or t.comparators[0].value is None):
             same = t.left.value is t.comparators[0].value
             node.test = ast.copy_location(ast.Constant(value=same if isinstance(t.ops[0], ast.Is) else not same), t)
+        # `SomeClass is None` / `some_function is not None`: a name the module binds once by def/class is never None
+        if isinstance(t, ast.Compare) and len(t.ops) == 1 and isinstance(t.ops[0], (ast.Is, ast.IsNot)) \
+                and isinstance(t.comparators[0], ast.Constant) and t.comparators[0].value is None \
+                and isinstance(t.left, ast.Name) and t.left.id in _MODULE_DEFS:
+            node.test = ast.copy_location(ast.Constant(value=isinstance(t.ops[0], ast.IsNot)), t)
         if isinstance(node.test, ast.Constant) and isinstance(node.test.value, (bool, int)) and not isinstance(node.test.value, str):
             arm = node.body if node.test.value else node.orelse
             return arm if arm else ast.copy_location(ast.Pass(), node)
+        return node
+
+    def visit_FunctionDef(self, node):
+        self.generic_visit(node)
+        _drop_unreachable(node.body)
         return node
 
     def visit_While(self, node):
@@ -1569,6 +1776,294 @@ class _PruneConstantIfs(ast.NodeTransformer):
         if isinstance(node.test, ast.Constant) and node.test.value is False and not node.orelse:
             return ast.copy_location(ast.Pass(), node)
         return node
+
+
+def _expand_const_dict_lookups(tree):
+    """A module-level dict display of at most 8 entries that the module never mutates (`_BY_TYPE = {"linear": A, "log16": B}`) is a
+    spelled-out decision: `x = T.get(k[, d])`, `x = T[k]`, `return T.get(k)` / `return T[k]` become the if/elif chain over the keys in
+    display order (else: the default, None, or `raise KeyError(k)`), and `k in T` becomes the disjunction of the comparisons.  Keys
+    written `np.dtype(X)` are compared as `X` (a dtype equals the scalar type it was built from)."""
+    tables = {}
+    for n in tree.body:
+        if isinstance(n, ast.Assign) and len(n.targets) == 1 and isinstance(n.targets[0], ast.Name) and isinstance(n.value, ast.Dict) \
+                and 0 < len(n.value.keys) <= 8 and all(k is not None for k in n.value.keys):
+            def keyok(k):
+                return (isinstance(k, ast.Constant) and isinstance(k.value, (str, int)) and not isinstance(k.value, bool)) or \
+                    (isinstance(k, ast.Call) and _dotted_name(k.func) in ("np.dtype", "numpy.dtype") and len(k.args) == 1 and not k.keywords
+                     and _dotted_name(k.args[0]) is not None)
+            def valok(v):
+                return isinstance(v, ast.Constant) or (isinstance(v, ast.Name) and v.id in _MODULE_STABLE)
+            if all(keyok(k) for k in n.value.keys) and all(valok(v) for v in n.value.values):
+                tables[n.targets[0].id] = n.value
+    if not tables:
+        return 0
+    # never rebound, never mutated, never passed on as a value
+    for x in ast.walk(tree):
+        if isinstance(x, ast.Name) and x.id in tables and isinstance(x.ctx, (ast.Store, ast.Del)):
+            pass
+    uses = {t: 0 for t in tables}
+    bad = set()
+    parents = {}
+    for p_ in ast.walk(tree):
+        for c_ in ast.iter_child_nodes(p_):
+            parents[id(c_)] = p_
+    for x in ast.walk(tree):
+        if not (isinstance(x, ast.Name) and x.id in tables):
+            continue
+        par = parents.get(id(x))
+        if isinstance(x.ctx, ast.Store):
+            if not (isinstance(par, ast.Assign) and par in tree.body):
+                bad.add(x.id)
+            continue
+        if isinstance(par, ast.Attribute) and par.attr == "get" and isinstance(parents.get(id(par)), ast.Call) and parents[id(par)].func is par:
+            continue
+        if isinstance(par, ast.Subscript) and par.value is x and isinstance(par.ctx, ast.Load):
+            continue
+        if isinstance(par, ast.Compare) and x in par.comparators and len(par.ops) == 1 and isinstance(par.ops[0], (ast.In, ast.NotIn)):
+            continue
+        bad.add(x.id)
+    for b in bad:
+        tables.pop(b, None)
+    if not tables:
+        return 0
+    count = [0]
+
+    def keyexpr(k):
+        return copy.deepcopy(k.args[0]) if isinstance(k, ast.Call) else copy.deepcopy(k)
+
+    def simple(a):
+        return isinstance(a, (ast.Name, ast.Constant)) or (isinstance(a, ast.Attribute) and simple(a.value))
+
+    def lookup(v):
+        """(table, key expr, default expr | 'raise') if v is a lookup in a constant table with a simple key."""
+        if isinstance(v, ast.Call) and isinstance(v.func, ast.Attribute) and v.func.attr == "get" and isinstance(v.func.value, ast.Name) \
+                and v.func.value.id in tables and 1 <= len(v.args) <= 2 and not v.keywords and all(simple(a) for a in v.args):
+            return tables[v.func.value.id], v.args[0], (v.args[1] if len(v.args) == 2 else ast.Constant(value=None))
+        if isinstance(v, ast.Subscript) and isinstance(v.value, ast.Name) and v.value.id in tables and simple(v.slice):
+            return tables[v.value.id], v.slice, "raise"
+        return None
+
+    def chain(tab, key, default, mk, at):
+        node = None
+        last = [mk(copy.deepcopy(default))] if default != "raise" else \
+            [ast.Raise(exc=ast.Call(func=ast.Name(id="KeyError", ctx=ast.Load()), args=[copy.deepcopy(key)], keywords=[]), cause=None)]
+        orelse = last
+        for k, val in reversed(list(zip(tab.keys, tab.values))):
+            test = ast.Compare(left=copy.deepcopy(key), ops=[ast.Eq()], comparators=[keyexpr(k)])
+            node = ast.If(test=test, body=[mk(copy.deepcopy(val))], orelse=orelse)
+            orelse = [node]
+        ast.copy_location(node, at)
+        ast.fix_missing_locations(node)
+        for sub in ast.walk(node):
+            ast.copy_location(sub, at) if not hasattr(sub, "lineno") else None
+        return node
+
+    def block(stmts):
+        out = []
+        for st in stmts:
+            if isinstance(st, (ast.ClassDef,)):
+                st.body = block(st.body)
+                out.append(st)
+                continue
+            for fld in ("body", "orelse", "finalbody"):
+                if hasattr(st, fld) and isinstance(getattr(st, fld), list):
+                    setattr(st, fld, block(getattr(st, fld)))
+            if isinstance(st, ast.Try):
+                for h in st.handlers:
+                    h.body = block(h.body)
+            if isinstance(st, ast.Assign) and len(st.targets) == 1 and isinstance(st.targets[0], ast.Name):
+                lk = lookup(st.value)
+                if lk is not None:
+                    tgt = st.targets[0]
+                    out.append(chain(lk[0], lk[1], lk[2], lambda v: ast.Assign(targets=[copy.deepcopy(tgt)], value=v), st))
+                    count[0] += 1
+                    continue
+            if isinstance(st, ast.Return) and st.value is not None:
+                lk = lookup(st.value)
+                if lk is not None:
+                    out.append(chain(lk[0], lk[1], lk[2], lambda v: ast.Return(value=v), st))
+                    count[0] += 1
+                    continue
+            out.append(st)
+        return out
+    tree.body = block(tree.body)
+
+    class T(ast.NodeTransformer):
+        def visit_Compare(self, c):
+            self.generic_visit(c)
+            if len(c.ops) == 1 and isinstance(c.ops[0], (ast.In, ast.NotIn)) and isinstance(c.comparators[0], ast.Name) \
+                    and c.comparators[0].id in tables and simple(c.left):
+                tab = tables[c.comparators[0].id]
+                alts = [ast.Compare(left=copy.deepcopy(c.left), ops=[ast.Eq()], comparators=[keyexpr(k)]) for k in tab.keys]
+                e = alts[0] if len(alts) == 1 else ast.BoolOp(op=ast.Or(), values=alts)
+                if isinstance(c.ops[0], ast.NotIn):
+                    e = ast.UnaryOp(op=ast.Not(), operand=e)
+                count[0] += 1
+                return ast.copy_location(e, c)
+            return c
+    T().visit(tree)
+    ast.fix_missing_locations(tree)
+    return count[0]
+
+
+def _dotted_name(n):
+    parts = []
+    while isinstance(n, ast.Attribute):
+        parts.append(n.attr)
+        n = n.value
+    if isinstance(n, ast.Name):
+        parts.append(n.id)
+        return ".".join(reversed(parts))
+    return None
+
+
+def _specialise_table_helpers(tree):
+    """A private plain helper one of whose parameters is used only as the iterable of its loops / comprehensions, and which every call
+    site hands a module-level constant tuple by name (`_first_mismatch(self, other, _MERGE_ATTRS)`): a copy per table is made with the
+    parameter replaced by the table and the loops unrolled, and the call sites call the copy.  The copy is then an ordinary helper
+    (a decision tree of returns, straight-line stores) that the inliner can expand."""
+    consts = _module_const_tuples(tree)
+    if not consts:
+        return 0
+    owners = [(tree, None)] + [(c, c) for c in tree.body if isinstance(c, ast.ClassDef)]
+    count = 0
+    for owner, cls in owners:
+        for fn in [n for n in list(owner.body) if isinstance(n, ast.FunctionDef)]:
+            if not _is_private(fn.name) or _is_njit(fn) or fn.args.vararg or fn.args.kwarg or fn.args.kwonlyargs:
+                continue
+            params = [a.arg for a in fn.args.posonlyargs + fn.args.args]
+            is_method = cls is not None and "staticmethod" not in _decorators(fn)
+            tparams = []
+            for pi, pname in enumerate(params):
+                if is_method and pi == 0:
+                    continue
+                uses = [n for n in ast.walk(fn) if isinstance(n, ast.Name) and n.id == pname]
+                iters = {id(n.iter) for n in ast.walk(fn) if isinstance(n, (ast.For, ast.comprehension)) and isinstance(n.iter, ast.Name)}
+                if uses and all(id(u) in iters for u in uses):
+                    tparams.append((pi, pname))
+            if not tparams:
+                continue
+            # call sites
+            sites = []
+            ok = True
+            for c in ast.walk(tree):
+                if not isinstance(c, ast.Call):
+                    continue
+                f = c.func
+                hit = (isinstance(f, ast.Name) and f.id == fn.name and cls is None) or \
+                      (isinstance(f, ast.Attribute) and f.attr == fn.name and cls is not None and isinstance(f.value, ast.Name) and f.value.id in ("self", cls.name))
+                if not hit:
+                    continue
+                if c.keywords or any(isinstance(a, ast.Starred) for a in c.args):
+                    ok = False
+                    break
+                off = 1 if (is_method and isinstance(f, ast.Attribute) and f.value.id == "self") else 0
+                names = []
+                for pi, pname in tparams:
+                    ai = pi - off
+                    if not (0 <= ai < len(c.args)) or not (isinstance(c.args[ai], ast.Name) and c.args[ai].id in consts):
+                        ok = False
+                        break
+                    names.append(c.args[ai].id)
+                if not ok:
+                    break
+                sites.append((c, off, tuple(names)))
+            # the name must not be used as a value anywhere else (passed on, stored)
+            refs = [n for n in ast.walk(tree) if (isinstance(n, ast.Name) and n.id == fn.name and cls is None) or
+                    (isinstance(n, ast.Attribute) and n.attr == fn.name and cls is not None)]
+            if not ok or not sites or len(refs) != len(sites):
+                continue
+            made = {}
+            for c, off, names in sites:
+                if names not in made:
+                    cp = copy.deepcopy(fn)
+                    cp.name = "%s__%s" % (fn.name, "_".join(n.strip("_") for n in names))
+                    drop = {pname for _, pname in tparams}
+                    cp.args.args = [a for a in cp.args.args if a.arg not in drop]
+                    cp.args.posonlyargs = [a for a in cp.args.posonlyargs if a.arg not in drop]
+                    if cp.args.defaults:
+                        cp.args.defaults = []        # (helpers with defaults on the remaining parameters are not specialised)
+                    for (pi, pname), cname in zip(tparams, names):
+                        cp = _ConstSubst(pname, ast.Name(id=cname, ctx=ast.Load())).visit(cp)
+                    _static_expand(cp, consts)
+                    ast.fix_missing_locations(cp)
+                    owner.body.insert(owner.body.index(fn) + 1, cp)
+                    made[names] = cp
+                if fn.args.defaults:
+                    continue
+                cp = made[names]
+                idxs = sorted((pi - off for pi, _ in tparams), reverse=True)
+                for ai in idxs:
+                    del c.args[ai]
+                if isinstance(c.func, ast.Name):
+                    c.func.id = cp.name
+                else:
+                    c.func.attr = cp.name
+                count += 1
+    return count
+
+
+def _ndindex_loops(tree):
+    """`for i, j in np.ndindex(a, b):` (tuple target of the same arity, no break, no else) is the row-major nest
+    `for i in range(a): for j in range(b):` -- `continue` means the same in both spellings."""
+    count = [0]
+
+    class T(ast.NodeTransformer):
+        def visit_For(self, n):
+            self.generic_visit(n)
+            it = n.iter
+            if isinstance(it, ast.Call) and _dotted_name(it.func) in ("np.ndindex", "numpy.ndindex") and not it.keywords and not n.orelse \
+                    and isinstance(n.target, (ast.Tuple, ast.List)) and len(n.target.elts) == len(it.args) >= 1 \
+                    and all(isinstance(t, ast.Name) for t in n.target.elts) and not any(isinstance(a, ast.Starred) for a in it.args) \
+                    and not any(isinstance(x, ast.Break) for b in n.body for x in ast.walk(b)):
+                # the extents are evaluated once, before the loop: they must be expressions the body cannot change
+                simple = lambda a: isinstance(a, (ast.Name, ast.Constant)) or (isinstance(a, ast.Attribute) and simple(a.value)) or \
+                    (isinstance(a, ast.Call) and isinstance(a.func, ast.Name) and a.func.id == "int" and len(a.args) == 1 and not a.keywords and simple(a.args[0]))
+                if not all(simple(a) for a in it.args):
+                    return n
+                body = n.body
+                for tgt, ext in reversed(list(zip(n.target.elts, it.args))):
+                    rng = ast.Call(func=ast.Name(id="range", ctx=ast.Load()), args=[ext], keywords=[])
+                    body = [ast.copy_location(ast.For(target=tgt, iter=rng, body=body, orelse=[], type_comment=None), n)]
+                count[0] += 1
+                ast.fix_missing_locations(body[0])
+                return body[0]
+            return n
+    T().visit(tree)
+    return count[0]
+
+
+def _eliminate_loop_continues(fn):
+    """Guard clauses of a loop body: `if T: A; continue` followed by REST is `if T: A else: REST` (recursively; A must not contain
+    another break/continue).  Python-level functions only: the rules read loop bodies as decision trees."""
+    count = [0]
+
+    def fix_body(body):
+        for i, st in enumerate(body):
+            if isinstance(st, ast.If) and not st.orelse and st.body and isinstance(st.body[-1], ast.Continue) \
+                    and not any(isinstance(x, (ast.Break, ast.Continue)) for b in st.body[:-1] for x in ast.walk(b)) and i + 1 < len(body):
+                rest = fix_body(body[i + 1:])
+                st.body = st.body[:-1] or [ast.copy_location(ast.Pass(), st)]
+                st.orelse = rest
+                count[0] += 1
+                return body[:i + 1]
+        return body
+
+    def visit(stmts):
+        for st in stmts:
+            if isinstance(st, (ast.FunctionDef, ast.AsyncFunctionDef, ast.ClassDef)):
+                continue
+            for fld in ("body", "orelse", "finalbody"):
+                blk = getattr(st, fld, None)
+                if isinstance(blk, list):
+                    visit(blk)
+            if isinstance(st, ast.Try):
+                for h in st.handlers:
+                    visit(h.body)
+            if isinstance(st, (ast.For, ast.While)):
+                st.body = fix_body(st.body)
+    visit(fn.body)
+    return count[0]
 
 
 def _drop_noop_kernel_calls(tree):
@@ -1617,12 +2112,50 @@ def _drop_noop_kernel_calls(tree):
     return count[0]
 
 
+def _unroll_const_tuple_loops(fn):
+    """`for v in (32, 16, 8):` with a literal tuple of at most 8 constants, no break/continue/else and a body that does not rebind `v`:
+    the body is repeated with the constant substituted (used for kernels, whose loops the walkers otherwise treat as unbounded)."""
+    changed = [0]
+
+    def block(stmts):
+        out = []
+        for s in stmts:
+            if isinstance(s, (ast.FunctionDef, ast.AsyncFunctionDef, ast.ClassDef)):
+                out.append(s)
+                continue
+            for fld in ("body", "orelse", "finalbody"):
+                if hasattr(s, fld) and isinstance(getattr(s, fld), list):
+                    setattr(s, fld, block(getattr(s, fld)))
+            if isinstance(s, ast.For) and isinstance(s.target, ast.Name) and isinstance(s.iter, (ast.Tuple, ast.List)) and not s.orelse \
+                    and 0 < len(s.iter.elts) <= 8 and all(isinstance(e, ast.Constant) and isinstance(e.value, (int, float)) and not isinstance(e.value, bool)
+                                                        for e in s.iter.elts) \
+                    and not any(isinstance(x, (ast.Break, ast.Continue)) for x in ast.walk(s)) \
+                    and not any(isinstance(x, ast.Name) and x.id == s.target.id and isinstance(x.ctx, (ast.Store, ast.Del)) for b in s.body for x in ast.walk(b)):
+                # the loop variable keeps its last value afterwards
+                for e in s.iter.elts:
+                    for b in s.body:
+                        out.append(_ConstSubst(s.target.id, e).visit(copy.deepcopy(b)))
+                out.append(ast.copy_location(ast.Assign(targets=[ast.Name(id=s.target.id, ctx=ast.Store())], value=copy.deepcopy(s.iter.elts[-1])), s))
+                changed[0] += 1
+                continue
+            out.append(s)
+        return out
+    fn.body = block(fn.body)
+    return changed[0]
+
+
 def normalize(tree):
     _MODULE_STABLE.clear()
     _MODULE_STABLE.update(_module_stable_names(tree))
+    _MODULE_DEFS.clear()
+    defs_ = [n.name for n in tree.body if isinstance(n, (ast.FunctionDef, ast.ClassDef))]
+    _MODULE_DEFS.update(n for n in defs_ if defs_.count(n) == 1 and n in _MODULE_STABLE)
     _expand_module_aliases(tree)
     _expand_module_constants(tree)
     _PruneConstantIfs().visit(tree)
+    _expand_const_dict_lookups(tree)
+    _ndindex_loops(tree)
+    _specialise_table_helpers(tree)
     _drop_noop_kernel_calls(tree)
     _hoist_scalar_helper_calls(tree)
     for fn_ in ast.walk(tree):
@@ -1631,6 +2164,10 @@ def normalize(tree):
     _FoldDisplays().visit(tree)
     inl = Inliner(tree)
     n = inl.run()
+    for fn_ in ast.walk(tree):
+        if isinstance(fn_, ast.FunctionDef) and not _is_njit(fn_):
+            _sink_into_selector_chain(fn_)
+    _SimplifySelectorTests().visit(tree)
     _PruneConstantIfs().visit(tree)          # constant tests exposed by substituted default arguments
     _FoldDisplays().visit(tree)
     ast.fix_missing_locations(tree)
@@ -1640,8 +2177,10 @@ def normalize(tree):
         if isinstance(node, ast.FunctionDef):
             _fuse_row_views(node)
         if isinstance(node, ast.FunctionDef) and _is_njit(node):
+            _unroll_const_tuple_loops(node)
             node.body = _split_simple_statements(node.body)       # statement forms only; kernels are otherwise read by the walker
         if isinstance(node, ast.FunctionDef) and not _is_njit(node):
+            _eliminate_loop_continues(node)
             node.body = _split_simple_statements(node.body)
             if consts:
                 _static_expand(node, consts)
@@ -1661,7 +2200,19 @@ def normalize(tree):
                 if not c:
                     break
             _FoldDisplays().visit(node)       # displays exposed by the propagation (`*tuple(xs)`, `(a, b) + (c,)`)
-            _static_expand(node, consts)      # getattr(x, 'lit') / **{...} exposed by the propagation
+            if _static_expand(node, consts):  # getattr(x, 'lit') / **{...} / unrolled table loops exposed by the propagation
+                # what the unrolling exposed: `d = {...}; d["k"] = v` item stores, `a, b = u, v`, a dict display used once as `**d`
+                _merge_dict_item_stores(node.body)
+                node.body = _split_simple_statements(node.body)
+                for _ in range(3):
+                    if not _propagate_copies(node):
+                        break
+                for _ in range(3):
+                    node.body, c = _inline_adjacent_single_use(node.body, _name_uses(node))
+                    if not c:
+                        break
+                _FoldDisplays().visit(node)
+                _static_expand(node, consts)
     # a private helper whose every use was inlined is dead for the analysis: its body is judged where it now runs
     dropped = set()
     for name in sorted(tree._inlined_helpers):
@@ -2062,3 +2613,46 @@ def positionalise_python_calls(trees):
                 if m is not None:
                     move(c, params_of(m, not is_static(m)))
         visit(tree, None)
+
+
+_BUILTIN_EXC = {"Exception", "TypeError", "ValueError", "RuntimeError", "KeyError", "IndexError", "MemoryError", "AttributeError", "OSError",
+                "IOError", "EOFError", "ArithmeticError", "ZeroDivisionError", "OverflowError", "LookupError", "NotImplementedError", "AssertionError"}
+
+
+def canonicalise_exception_raises(trees):
+    """`raise PkgError(...)` where PkgError is a class of the package whose base chain ends in a builtin exception and which defines no
+    methods of its own (a docstring-only subclass): the raise is read as raising that builtin (an instance of the subclass IS one).
+    Only `raise` statements are rewritten -- an `except PkgError` clause catches less than `except TypeError` and is left alone."""
+    classes = {}
+    for short, tree in trees.items():
+        for n in tree.body:
+            if isinstance(n, ast.ClassDef):
+                classes[(short, n.name)] = n
+
+    def base_of(key, seen=()):
+        c = classes.get(key)
+        if c is None or key in seen or len(c.bases) != 1 or not isinstance(c.bases[0], ast.Name):
+            return None
+        if any(isinstance(b, (ast.FunctionDef, ast.AsyncFunctionDef)) for b in c.body):
+            return None
+        b = c.bases[0].id
+        if b in _BUILTIN_EXC:
+            return b
+        imports = _imports_of(trees[key[0]])
+        nk = (key[0], b) if (key[0], b) in classes else ((imports[b][0], imports[b][1]) if b in imports else None)
+        return base_of(nk, seen + (key,)) if nk else None
+    n_rewritten = 0
+    for short, tree in trees.items():
+        imports = _imports_of(tree)
+        for r in ast.walk(tree):
+            if not isinstance(r, ast.Raise) or r.exc is None:
+                continue
+            fn = r.exc.func if isinstance(r.exc, ast.Call) else r.exc
+            if not isinstance(fn, ast.Name):
+                continue
+            key = (short, fn.id) if (short, fn.id) in classes else ((imports[fn.id][0], imports[fn.id][1]) if fn.id in imports else None)
+            b = base_of(key) if key else None
+            if b is not None:
+                fn.id = b
+                n_rewritten += 1
+    return n_rewritten
